@@ -184,13 +184,17 @@ class GenericSystemRegistry(
         if system is None:
             system = self._default_system_name
 
-        # The cache is only done for check_nonmult=True and the current system.
+        # The cache is only done for check_nonmult=True and the current system; an entry
+        # belongs to the combination of active contexts it was computed under
+        # (contexts may redefine units).
+        active = getattr(self, "_active_ctx", None)
+        cache_key = (input_units, active.hashable() if active is not None else ())
         if (
             check_nonmult
             and system == self._default_system_name
-            and input_units in self._base_units_cache
+            and cache_key in self._base_units_cache
         ):
-            return self._base_units_cache[input_units]
+            return self._base_units_cache[cache_key]
 
         factor, units = self.get_root_units(input_units, check_nonmult)
 
@@ -216,7 +220,7 @@ class GenericSystemRegistry(
         base_factor = self.convert(factor, units, destination_units)
 
         if check_nonmult and system == self._default_system_name:
-            self._base_units_cache[input_units] = base_factor, destination_units
+            self._base_units_cache[cache_key] = base_factor, destination_units
 
         return base_factor, destination_units
 
